@@ -338,6 +338,13 @@ func genPowPair(t *rapid.T) (D, D) {
 		}
 		return DFin(genSign(t), genCoef(t), genExp(t)), DFin(genSign(t), genCoef(t), ir(t, -40, 40, "ye"))
 	case 10:
+		if ir(t, 0, 2, "boundary") == 0 {
+			// exact powers that land on 2^110 * 10^k, where the spacing of the format changes
+			pairs := [][2]int64{{2, 110}, {4, 55}, {32, 22}, {1024, 11}, {2048, 10}, {1048576, 5}}
+			p := pairs[ir(t, 0, len(pairs)-1, "pair")]
+			x := genCohortMember(t, DFin(genSign(t), bi(p[0]), ir(t, -3, 3, "shift")))
+			return x, genCohortMember(t, DFin(genSign(t), bi(p[1]), 0))
+		}
 		// x = 2, 3, 5, 7 ... with integer exponents: exact results representable
 		return DFin(false, bi(int64(ir(t, 2, 99, "b"))), 0), DFin(false, bi(int64(ir(t, 2, 40, "n"))), 0)
 	}
